@@ -509,6 +509,8 @@ def check_expr(col, e, build, origin):
             col.violation('C02/argument-evaluation-log-differs',
                           '%s: probe accesses %s (glom) vs %s (reference)' % (rendering, t_glom.log, t_ref.log), wit)
         col.count('probe_accesses', len(t_ref.log))
+        if got.ok and any(k != 'lit' and k != '-' for k in arg_kinds(e)):
+            check_many_targets(col, e, build, expr, rendering, kinds)
         return
 
     rf = want[1]
@@ -545,6 +547,54 @@ def check_expr(col, e, build, origin):
                           '%s: op %d raises %r in Python, glom raised %r' % (rendering, rf.pos, rf.exc, exc), wit)
     if not isinstance(exc, GlomError) and not isinstance(rf.exc, Exception):
         pass
+
+
+def _perturb(t):
+    """a target of the same shape with other values (the same expression usually still evaluates on it)"""
+    for k, v in list(t.__dict__.items()):
+        if k in ('log', 'h', 'z'):
+            continue
+        if type(v) is int:
+            t.__dict__[k] = v + 1
+        elif type(v) is float:
+            t.__dict__[k] = v + 1.0
+        elif type(v) is str:
+            t.__dict__[k] = v + 'q'
+        elif type(v) is list:
+            t.__dict__[k] = v + [9]
+        elif type(v) is tuple:
+            t.__dict__[k] = v + (9,)
+    return t
+
+
+def check_many_targets(col, e, build, expr, rendering, kinds):
+    """ONE T object evaluated against several different targets inside one glom() call ([expr] over a list of targets, and the
+    same object in two values of a dict spec): each evaluation replays the operations on ITS target, nested T arguments
+    included - element i equals the direct Python evaluation on target i"""
+    try:
+        wants = [ref_eval(e, build()), ref_eval(e, _perturb(build())), ref_eval(e, build())]
+    except (RefFail, RecursionError):
+        col.count('many_target_cases_skipped_reference_fails_on_the_perturbed_target')
+        return
+    targets = [build(), _perturb(build()), build()]
+    got = call(G, targets, [expr])
+    col.count('many_target_evaluations')
+    distinct = not same_value(wants[0], wants[1])
+    if distinct:
+        col.count('many_target_evaluations_with_distinct_expected_values')
+    wit = {'expr': rendering, 'targets': short(targets, 400)}
+    if not got.ok or len(got.value) != 3 or not all(same_value(g, w) for g, w in zip(got.value, wants)):
+        col.violation('C02/one-expression-on-several-targets-in-one-call:list:' + _last_kind(kinds),
+                      'glom([t0, t1, t2], [%s]) gave %s; evaluating the expression on each target directly gives %s'
+                      % (rendering, short(got, 400), short(wants, 400)), wit)
+        return
+    t0, t1 = build(), _perturb(build())
+    got = call(G, [t0, t1], {'first': (T[0], expr), 'second': (T[1], expr), 'again': (T[0], expr)})
+    if not got.ok or not (same_value(got.value['first'], wants[0]) and same_value(got.value['second'], wants[1])
+                          and same_value(got.value['again'], wants[0])):
+        col.violation('C02/one-expression-on-several-targets-in-one-call:dict:' + _last_kind(kinds),
+                      'the same T object in three values of one dict spec: %s gave %s, expected first/again = %s, second = %s'
+                      % (rendering, short(got, 400), short(wants[0], 200), short(wants[1], 200)), wit)
 
 
 def _last_kind(kinds):
@@ -612,6 +662,7 @@ def run(ctx):
     col.require('glom_evaluations', 500)
     col.require('failing_cases', 20)
     col.require('native_failures', 10)
+    col.require('many_target_evaluations_with_distinct_expected_values', 100)
     if ctx.shard == 0:
         systematic(col, rng)
     for i in range(ctx.n(15000, 80000)):
